@@ -114,7 +114,7 @@ class CatalogCreation(Harness):
         self.bounds = ("world size %d, %s sends; 11 records in chunks of 4 over 3 patches; every wildcard-receive match of the writer "
                        "and of the patch-loading root chosen by the engine") % (size, "eager" if eager else "synchronous")
         self.must_fail = wrong is not None
-        self.max_paths = 400
+        self.max_paths = 400 if size < 4 else 20000
 
     def make_inputs(self, eng):
         return {"_eng": eng}
